@@ -275,6 +275,51 @@ class Check(FormulaCheck):
                     if table[(pattern, other)] != acc:
                         rec.violation('C05/slots:separators-disagree-on-acceptance', pattern=pattern, comma=acc, other=other, other_accepts=table[(pattern, other)])
         rec.count('slot_patterns_tried', len(table))
+        # callees with a FIXED parameter list (most host functions and most built-ins are): a call with another number of slots cannot
+        # be 'accepted' by passing fewer or more arguments than it has slots - either it fails or every slot arrives
+        import functools
+
+        def fixed(k):
+            def record(*a):
+                self.log.append(('FIX', canon(list(a))))
+                return len(a)
+            params = ', '.join('p%d' % i for i in range(k))
+            ns = {'record': record}
+            exec('def FIX%d(%s):\n    return record(%s)\n' % (k, params, params), ns)
+            return ns['FIX%d' % k]
+        for k in range(0, 5):
+            self.e.p.set_function('FIX%d' % k, fixed(k))
+        self.e.p.set_function('FIXD', lambda a, b=7: (self.log.append(('FIX', canon([a, b]))), 2)[1])          # one optional parameter
+        self.e.p.set_function('FIXP', functools.partial(lambda a, b, c: (self.log.append(('FIX', canon([a, b, c]))), 3)[1], 0))     # a partial: two left
+        import inspect
+        from hotxlfp import formulas as _formulas
+
+        def arity(name):
+            ps = list(inspect.signature(_formulas.get_for(name)).parameters.values())
+            if any(q.kind == q.VAR_POSITIONAL for q in ps):
+                return None
+            return (sum(1 for q in ps if q.default is q.empty), len(ps))
+        for k, name in [(None, 'FIX%d' % k) for k in range(0, 5)] + [(None, 'FIXD'), (None, 'FIXP')] + [(arity(b), b) for b in ('ABS', 'ATAN2', 'IF', 'LEN', 'LEFT', 'MID', 'ROUND', 'PI', 'NOT', 'POWER')]:
+            for n in range(0, 6):
+                for pattern in itertools.product([True, False], repeat=n):
+                    if n == 1 and not pattern[0]:
+                        continue
+                    for sep in SEPS:
+                        f = name + '(' + sep.join(vals[i] if p else '' for i, p in enumerate(pattern)) + ')'
+                        r, log = self.run_logged(f)
+                        rec.case()
+                        rec.count('fixed_arity_calls_tried')
+                        recs = [e for e in log if e[0] == 'FIX']
+                        # (i) what the callFunction event shows is one entry per slot; (ii) a custom callee that ran got one argument per slot
+                        if name.startswith('FIX') and recs:
+                            got_n = len(recs[0][1]) - 1
+                            want_n = n if name != 'FIXP' else n + 1
+                            opt = 1 if (name == 'FIXD' and n == 1) else 0
+                            if got_n + 0 != want_n + opt:
+                                rec.violation('C05/slots:fixed-arity-callee-received-another-number-of-arguments-than-slots', formula=f, slots=n, received=recs[0][1])
+                            rec.nt(f)
+                        if k is not None and not (k[0] <= n <= k[1]) and r['error'] is None:
+                            rec.violation('C05/slots:built-in-accepted-with-another-number-of-slots-than-parameters', formula=f, slots=n, parameters=k, record=r)
         # the same law with every kind of value in a slot - also list-valued ones (array literals of either layout, a range the host
         # answers with a list, a function returning a list): one argument per slot whatever the separator, however many slots
         import random
